@@ -369,7 +369,7 @@ def check_c19(sc, res):
     kw_load = _load_kwargs(cfg)
     ign = bool(cfg.get("ignore_duplicate"))
     spelling = cfg.get("spelling")
-    with Facade(facade, disk) as fa:
+    with Facade(facade, disk, relative=(spelling == "rel")) as fa:
         def npath(p):
             if not isinstance(p, str):
                 raise LibraryMisbehaved("path-is-not-a-string", got=repr(p))
@@ -742,7 +742,7 @@ def check_c20(sc, res):
     disk = make_disk(sc["world"], {"listing": cfg.get("listing", "sorted"),
                                    "listing_seed": cfg.get("listing_seed", 0)}, None, facade)
     spelling = cfg.get("spelling")
-    with Facade(facade, disk) as fa:
+    with Facade(facade, disk, relative=(spelling == "rel")) as fa:
         def npath(p):
             if not isinstance(p, str):
                 raise LibraryMisbehaved("path-is-not-a-string", got=repr(p))
